@@ -978,6 +978,11 @@ func (s *Service) runWith(wid string, cb func()) {
 	}
 
 	s.mu.Lock()
+	// A nil workqueue means the service is closing
+	if s.workqueue == nil {
+		s.mu.Unlock()
+		return
+	}
 	// Get current work queue for the resource
 	var w *work
 	var ok bool
